@@ -111,6 +111,7 @@ struct Exec {
   // last result per (instance serial, evaluator, arguments): (parameter-state hash, bits)
   std::map<std::pair<uint64_t, uint64_t>, std::pair<uint64_t, Bits>> lastres;
   uint64_t inst_serial = 0;
+  std::string last_name[2];  // parameter name touched last in each registry (isolation probe after a switch)
   struct Defaults {
     std::map<std::string, long double> p0;
     std::map<std::string, std::vector<long double>> v0;
